@@ -12,10 +12,10 @@ VERIF = os.path.dirname(os.path.dirname(os.path.abspath(__file__)))
 
 def load():
     out = []
-    for fn in ("mutants.json", "mutants_extra.json"):
-        p = os.path.join(VERIF, "notes", fn)
-        if os.path.exists(p):
-            out.extend(json.load(open(p))["mutants"])
+    nd = os.path.join(VERIF, "notes")
+    for fn in sorted(os.listdir(nd)):
+        if fn.startswith("mutants") and fn.endswith(".json"):
+            out.extend(json.load(open(os.path.join(nd, fn)))["mutants"])
     return out
 
 
